@@ -59,8 +59,7 @@
              | Vba2 ws od cd text  (argument position, stage (e7)) a verbatim argument [ws od text cd]
 
     NOT covered:
-    a paragraph break directly after a control word /
-    comment, paragraph-break whitespace in a context without the [\n\n] specials,
+    paragraph-break whitespace in a context without the [\n\n] specials,
     comments before an argument, a delimited argument directly nested in the body of another one.
 
     Full statement (kept for reference, not proved):
@@ -530,3 +529,20 @@ Example C02_verbatim_argument_nonvacuous :
   (* an unbalanced opening delimiter in the text: the parser's scan ends later *)
   (ok_doc2 cxv bad = false /\ parse_top (unparse2 bad) false cxv (walker_state cxv) <> doc_result2 cxv bad).
 Proof. vm_compute. repeat split. discriminate. Qed.
+
+(** a paragraph break directly after a control word / a comment:
+    [\alpha \n\n x\item\n \n%c\n\n\textbf\alpha\n\n\n] — the post-space of the control word
+    (of the comment) stops before the first newline of the paragraph break, also when
+    the control word has an absent optional argument or is itself an argument *)
+Example C02_par_after_control_word_nonvacuous :
+  let alpha := [97;108;112;104;97] in
+  let d := {| d_items2 := [Mac2 [] alpha [32] []; Par2 [] []; Text2 [32] [120];
+                           Mac2 [] [105;116;101;109] [] [Abs2]; Par2 [] [32];
+                           Cmt2 [] [99] []; Par2 [] [];
+                           Mac2 [] [116;101;120;116;98;102] [] [Mac2 [] alpha [] []]; Par2 [] [10]];
+              d_trail2 := [] |} in
+  ok_doc2 default_ctx d = true /\
+  parse_top (unparse2 d) false default_ctx (walker_state default_ctx) = doc_result2 default_ctx d /\
+  length (unparse2 d) = 39%nat /\
+  length (fst (tree_of2 default_ctx (walker_state default_ctx) 0 d)) = 9%nat.
+Proof. vm_compute. repeat split. Qed.
